@@ -228,6 +228,46 @@ def code_tokens(ln):
     return ln.split('!')[0].split()
 
 
+def is_dsr(toks):
+    """a DSR command: 'REM DSR PUT ...' / 'REM DSR REPLACE ...' (any case) -- the one kind of remark that is continued with ' ='
+    (the specification's `isDsr`); its tokens are the instruction's, unlike the free text of an ordinary REM"""
+    return len(toks) >= 3 and toks[0].upper() == 'REM' and toks[1].upper() == 'DSR' and toks[2].upper().startswith(('PUT', 'REPLACE'))
+
+
+def token_exact(toks):
+    """the instruction has to be in the written file token for token"""
+    kw = keyword_of(toks[0])
+    return kw in KEYWORDS and (kw not in NOT_TOKEN_EXACT or is_dsr(toks))
+
+
+DSR_FRAGMENTS = ['TOLUENE', 'OC(CF3)3', 'CF3', 'THF', 'benzene', 'PPh3', 'ETHER', 'Cp*', 'OTf', 'dme', 'nbu4n', 'ch2cl2']
+
+
+def dsr_command(rng, names, n=None, spelling=None):
+    """a command of DSR (manual: REM DSR PUT|REPLACE fragment WITH atoms ON atoms|Q-peaks PART n OCC n RESI [n] [class] DFIX|
+    SPLIT ...), as DSR users write it into the res file. n: exact length of the joined text (single blanks) or None"""
+    spelling = spelling or rng.choice(['upper', 'upper', 'lower', 'mixed'])
+    k = rng.randint(2, 7)
+    src = [rng.choice(['C', 'O', 'F', 'N']) + str(i + 1) for i in range(k)]
+    tgt = [rng.choice(names + [f'Q{rng.randint(1, 40)}']) for _ in range(k)]
+    toks = ['REM', 'DSR', rng.choice(['PUT', 'REPLACE']), rng.choice(DSR_FRAGMENTS), 'WITH'] + src + ['ON'] + tgt
+    for opt in rng.sample([['PART', str(rng.choice([1, 2, -1]))], ['OCC', str(rng.choice([-21, 21, -31, 10.5]))],
+                           ['RESI'] + rng.choice([[], [str(rng.randint(1, 99))], [str(rng.randint(1, 99)), 'CCF3'], ['TOL']]),
+                           ['DFIX'], ['SPLIT'], ['INVERT'], ['REPLACE'] if toks[2] == 'PUT' else ['DFIX']], rng.randint(0, 5)):
+        toks += [t for t in opt if t not in toks[5:] or t[0].isdigit() or t[0] == '-']
+    f = dict(upper=str.upper, lower=str.lower, mixed=lambda t: t)[spelling]
+    toks = [f(t) for t in toks[:3]] + toks[3:4] + [f(t) if t.isalpha() and t not in names else t for t in toks[4:]]
+    if n is not None:
+        # further target atoms (DSR accepts any number of pairs for the fit; here: names of the file) up to exactly n columns
+        on = next(i for i, t in enumerate(toks) if t.upper() == 'ON') + 1 + k
+        head, tail = ' '.join(toks[:on]), toks[on:]
+        rest = (' ' + ' '.join(tail)) if tail else ''
+        if n >= len(head) + len(rest) + 2:
+            head = pad_names(rng, head, n - len(rest), names + ['Q1', 'Q12', 'Q5'])
+        toks = (head + rest).split()
+    return ' '.join(toks)
+
+
 def layout_input(rng, ln, force=False, modes=None, cmodes=None, wide=None):
     """physical lines (<= 80 columns) of one instruction of the INPUT file, the generator's own layout, independent of the
     code under test: breaks between any two tokens (mode 'keyword': directly behind the keyword, mode 'every': behind every
@@ -236,10 +276,16 @@ def layout_input(rng, ln, force=False, modes=None, cmodes=None, wide=None):
     (a mark inside a comment is not a mark, so a comment is only ever put behind the code of its physical line).
     wide = 'comment' / 'blanks': the instruction is on one line and fits into 80 columns, but a trailing comment / trailing
     blanks reach beyond column 80 (SHELXL ignores them; the writer must not reproduce them beyond column 80)"""
-    if ln.startswith(('TITL', 'REM')):
+    dsr = is_dsr(ln.split())
+    if ln.startswith(('TITL', 'REM')) and not dsr:
         return [ln[:COLS]]
     code, _, comment = ln.partition(' !')
     toks = code.split()
+    if dsr:
+        # DSR and the library recognise the command on its first physical line (REM DSR PUT|REPLACE): no break in front of the
+        # fourth token; a remark has no '!' comments
+        wide, cmodes = None, ['none']
+        modes = [m for m in (modes or ['greedy', 'ragged', 'early', 'every']) if m != 'keyword'] or ['every']
     if wide and len(' '.join(toks)) <= COLS:
         text = ' '.join(toks)
         if wide == 'blanks':
@@ -271,7 +317,7 @@ def layout_input(rng, ln, force=False, modes=None, cmodes=None, wide=None):
                 text = cand
         return text
 
-    first_min = 1 if mode in ('keyword', 'every') else 2
+    first_min = 3 if dsr else 1 if mode in ('keyword', 'every') else 2
     res, cur, lim = [], toks[0], (0 if mode == 'keyword' else limit())
     for t in toks[1:]:
         cand = cur + ' ' * (1 if mode == 'single' else rng.choice([1, 1, 1, 2])) + t
@@ -316,7 +362,8 @@ def edit_op(rng, names, restr, natoms):
     # what kind of line(s) the text is: an instruction, a blank-led comment, a commented-out instruction, a REM / '!'
     # comment, an instruction with a hand-made continuation, a comment line followed by an instruction
     kind = rng.choice(['instruction', 'instruction', 'instruction', 'comment', 'commented-out', 'rem', 'bang', 'hand-continued',
-                       'comment+instruction', 'padded', 'keyword', 'keyword-continued', 'long-comment', 'long-blanks'])
+                       'comment+instruction', 'padded', 'keyword', 'keyword-continued', 'long-comment', 'long-blanks',
+                       'rem-long', 'dsr', 'dsr', 'dsr-continued'])
     short = restraint_line(rng, names).split(' !')[0]
     while len(short) > 60:
         short = restraint_line(rng, names).split(' !')[0]
@@ -347,6 +394,14 @@ def edit_op(rng, names, restr, natoms):
         code = short if rng.random() < 0.4 else pad_names(rng, rng.choice(['EADP', 'FLAT', 'SIMU 0.04 0.08', 'RIGU', 'DELU', 'ISOR 0.1', 'BOND', 'SAME']),
                                                           rng.randint(75, COLS), names)
         text = layout_input(rng, code, wide='comment' if kind == 'long-comment' else 'blanks')[0]
+    elif kind == 'rem-long':
+        # a remark of more than 80 columns (free text; ends on / around the wrap limit as well)
+        text = fill_to(rng, rng.choice([81, 82, 83, 90, 120, 161, 250]), (1,), first=rng.choice(['REM', 'rem', 'REM DSR was used:', 'Rem  ']))
+    elif kind in ('dsr', 'dsr-continued'):
+        # a DSR command, as one line of any length or continued by hand
+        text = dsr_command(rng, names, n=rng.choice([None, None, rng.randint(76, 84), rng.randint(85, 170), rng.randint(170, 260)]))
+        if kind == 'dsr-continued':
+            text = '\n'.join(layout_input(rng, text, force=True))
     if r < 0.25:
         return dict(op='add_line', where=rng.choice(['unit', 'fvar', 'atom', 'first']), text=text, text_kind=kind)
     nheader = len(restr)
@@ -379,7 +434,7 @@ def edit_op(rng, names, restr, natoms):
 
 def make_file_case(rng, cls=None):
     cls = cls or rng.choice(['restraints', 'restraints', 'aniso', 'sfac', 'fvars', 'free-text', 'edits', 'edits', 'edits', 'size',
-                             'sfac-explicit', 'layout', 'layout', 'layout'])
+                             'sfac-explicit', 'layout', 'layout', 'layout', 'dsr'])
     nel = rng.randint(1, 5)
     if cls == 'sfac':
         nel = rng.randint(18, 45)
@@ -412,6 +467,10 @@ def make_file_case(rng, cls=None):
     if cls == 'free-text':
         for _ in range(rng.randint(1, 4)):
             header.append('REM ' + ' '.join(hyphen_token(rng) if rng.random() < 0.3 else word(rng, rng.randint(1, 9)) for _ in range(rng.randint(10, 40))))
+    if cls == 'dsr' or (cls in ('restraints', 'edits', 'free-text', 'layout') and rng.random() < 0.3):
+        for _ in range(rng.randint(1, 3) if cls == 'dsr' else 1):
+            header.insert(rng.randint(0, len(header)),
+                          dsr_command(rng, names, n=rng.choice([None, rng.randint(60, 80), rng.randint(81, 100), rng.randint(100, 260)])))
     if cls == 'size':
         header.append('SIZE ' + ' '.join(str(round(rng.uniform(0.05, 0.6), 3)) for _ in range(rng.choice([1, 2, 3, 3]))))
         header.append('TEMP -173')
@@ -424,10 +483,20 @@ def make_file_case(rng, cls=None):
     if cls == 'edits':
         restr = [h for h in header if h.split()[0].upper()[:4] in RESTR_KW]
         ops = [edit_op(rng, names, restr, len(atoms)) for _ in range(rng.randint(1, 4))]
+    reread_edits = cls == 'edits' and rng.random() < 0.5
     # the layout of the input file is part of the case (replays do not depend on the generator)
-    force = cls == 'layout'
+    force = cls in ('layout', 'dsr')
     header_phys = [layout_input(rng, h, force) for h in header]
-    return dict(kind='file', cls=cls, titl=titl, sfac=sfac, unit=unit, fvars=fvars, fvar_per_line=rng.choice([7, 7, 3, 10]),
+    if cls == 'dsr':
+        extra = dict(via=rng.choice(['read_string', 'read_file']), reread=rng.random() < 0.5, crlf=rng.random() < 0.15, dirty=rng.random() < 0.2)
+        if rng.random() < 0.4:
+            restr = [h for h in header if h.split()[0].upper()[:4] in RESTR_KW]
+            ops = [edit_op(rng, names, restr, len(atoms)) for _ in range(rng.randint(1, 3))]
+    else:
+        extra = {}
+    if reread_edits:
+        extra = dict(reread=True)
+    return dict(extra, kind='file', cls=cls, titl=titl, sfac=sfac, unit=unit, fvars=fvars, fvar_per_line=rng.choice([7, 7, 3, 10]),
                 header=header, header_phys=header_phys, atoms=atoms, explicit=explicit, ops=ops)
 
 
@@ -549,6 +618,8 @@ def make_keyword_case(rng, picks=None, mode=None, wide=None, cls='keywords', ops
     if picks is None:
         forms = keyword_forms(rng, names)
         picks = [rng.choice(forms)[2] for _ in range(rng.randint(3, 9))]
+        if rng.random() < 0.3:
+            picks.insert(rng.randint(0, len(picks)), dsr_command(rng, names, n=rng.choice([None, rng.randint(70, 90), rng.randint(90, 250)])))
     fs = gen.FileSpec(titl='verif ' + word(rng, 5), sfac=list(sfac), unit=list(unit), fvars=list(fvars))
     fs.cell = gen.rand_cell(rng)
     fs.latt = rng.choice([-1, 1, 2, -2])
@@ -567,7 +638,7 @@ def make_keyword_case(rng, picks=None, mode=None, wide=None, cls='keywords', ops
     for ln in logical:
         w = wide if (wide and rng.random() < 0.6) else None
         phys.extend(layout_input(rng, ln, force=rng.random() < 0.8, modes=[mode] if mode else LAYOUT_MODES, wide=w))
-    header = [ln for ln in logical if keyword_of(ln.split()[0]) in KEYWORDS and keyword_of(ln.split()[0]) not in NOT_TOKEN_EXACT]
+    header = [ln for ln in logical if token_exact(ln.split())]
     restr = [h for h in header if keyword_of(h.split()[0]) in RESTR_KW]
     case = dict(kind='file', cls=cls, titl=fs.titl, sfac=sfac, unit=unit, fvars=fvars, fvar_per_line=fs.fvar_per_line,
                 header=header, atoms=atoms, explicit=None, input='\n'.join(phys) + '\n', all_known=True,
@@ -586,6 +657,32 @@ def systematic_keyword_cases(rng, per_file=7):
         for i in range(0, len(texts), per_file):
             c = make_keyword_case(rng, picks=texts[i:i + per_file], mode=mode, cls='keywords/' + (mode or 'mixed'))
             out.append(c)
+    return out
+
+
+def systematic_dsr_cases(rng):
+    """DSR commands (PUT / REPLACE x spelling) whose joined text ends on every column 72..92 and on a coarse grid up to 260, in
+    every layout of the input (one line where it fits, greedy, ragged, behind every token); four commands per file; read through
+    read_string / read_file, written, and written once more after a fresh object has read the written file"""
+    sfac = ['C', 'O', 'F']
+    out = []
+    lens = list(range(72, 93)) + [100, 120, 158, 159, 160, 161, 200, 237, 260]
+    specs = [(n, ['greedy', 'ragged', 'every', 'early'][i % 4], ['upper', 'lower', 'mixed'][i % 3]) for i, n in enumerate(lens)]
+    for i in range(0, len(specs), 4):
+        atoms = make_atoms(rng, sfac, 5)
+        names = [a['name'] for a in atoms]
+        header, phys = [], []
+        for n, mode, sp in specs[i:i + 4]:
+            cmd = dsr_command(rng, names, n=n, spelling=sp)
+            header.append(cmd)
+            phys.append(layout_input(rng, cmd, force=len(cmd) > 76, modes=[mode]))
+            if rng.random() < 0.5:
+                r = restraint_line(rng, names).split(' !')[0]
+                header.append(r)
+                phys.append(layout_input(rng, r))
+        out.append(dict(kind='file', cls='dsr/systematic', titl='verif dsr', sfac=sfac, unit=[12, 4, 8], fvars=[0.5, 0.6, 0.7], fvar_per_line=7,
+                        header=header, header_phys=phys, atoms=atoms, explicit=None, ops=[], via=['read_string', 'read_file'][(i // 4) % 2],
+                        reread=True))
     return out
 
 
@@ -612,8 +709,8 @@ def render_file(case):
 
 
 def wrap_input(ln):
-    if len(ln) <= COLS or ln.startswith(('TITL', 'REM')):
-        return [ln[:COLS]] if ln.startswith(('TITL', 'REM')) else [ln]
+    if len(ln) <= COLS or (ln.startswith(('TITL', 'REM')) and not is_dsr(ln.split())):
+        return [ln[:COLS]] if ln.startswith(('TITL', 'REM')) and not is_dsr(ln.split()) else [ln]
     if ' !' in ln:
         # a continuation mark inside a '!' comment is not a continuation mark (C05): wrap the instruction only and
         # keep the comment on the last physical line if it fits there
@@ -703,7 +800,7 @@ def same_instruction(want, got):
 
 
 def all_instructions_of(lx):
-    return [l for l in (lx['logical'] or []) if l and keyword_of(l[0]) in KEYWORDS and keyword_of(l[0]) not in NOT_TOKEN_EXACT]
+    return [l for l in (lx['logical'] or []) if l and token_exact(l)]
 
 
 def observe_file(case, tmp, oplex):
@@ -729,7 +826,7 @@ def observe_file(case, tmp, oplex):
     targets = list(want)        # the generated header instructions, addressed by the edit ops by position
     want_lines = []             # by construction: (class, blank-led, tokens) of the physical lines the edit ops inserted
     # by construction: every generated instruction of any keyword (tokens compared as numbers / without case)
-    want_kw = [code_tokens(h) for h in case['header'] if keyword_of(h.split()[0]) in KEYWORDS and keyword_of(h.split()[0]) not in NOT_TOKEN_EXACT]
+    want_kw = [code_tokens(h) for h in case['header'] if token_exact(h.split())]
 
     def instructions_of(text):
         return [l for l in (oplex[text]['logical'] or []) if l and l[0].upper().split('_')[0][:4] in RESTR_KW]
@@ -1029,7 +1126,13 @@ def evaluate_files(ctx, cases):
                              f'the {tname} object to be written has the text {text[-60:]!r}, which ends in a continuation mark',
                              dict(payload, expected='a complete instruction', item=text))
             # 2c. the (comment-aware) lexer gives back, from the wrapped file, the token sequences of the unwrapped instructions
-            exp = er['logical']
+            # (an ordinary remark is free text and never continued: what the wrapper does to one of more than 80 columns is a
+            # remark and a blank-led comment line -- width and line classes are checked, its tokens are not; a DSR command is
+            # an instruction in this respect)
+            def no_remarks(ls):
+                return None if ls is None else [l for l in ls if not (l and keyword_of(l[0]) == 'REM' and not is_dsr(l))]
+            exp = no_remarks(er['logical'])
+            fr = dict(fr, logical_all=fr['logical'], logical=no_remarks(fr['logical']))
             if fr['logical'] is None:
                 ctx.fail('C06|file|dangling-continuation', 'the last physical line of the written file is flagged as continued', payload)
             elif exp is not None and fr['logical'] != exp:
@@ -1069,7 +1172,7 @@ def evaluate_files(ctx, cases):
                     else:
                         pool.pop(k)
                 kws = {keyword_of(w[0]) for w in st['want_kw']}
-                extra = [g for g in pool if c.get('all_known') and keyword_of(g[0]) in kws]
+                extra = [g for g in pool if c.get('all_known') and keyword_of(g[0]) in kws and token_exact(g)]
                 if missing or extra:
                     w = (missing or extra)[0]
                     kw = keyword_of(w[0])
@@ -1201,7 +1304,7 @@ def run(ctx):
     n = budget(250, 1500, 4000)
     nk = budget(120, 300, 1500)
     nf = budget(600, 1500, 4000)
-    fcls = ['restraints', 'aniso', 'sfac', 'fvars', 'free-text', 'edits', 'size', 'sfac-explicit', 'layout']
+    fcls = ['restraints', 'aniso', 'sfac', 'fvars', 'free-text', 'edits', 'size', 'sfac-explicit', 'layout', 'dsr']
 
     def keyword_case(i):
         return make_keyword_case(rng, wide=[None, None, 'comment', 'blanks'][i % 4], ops=[0, 0, 1, 3][i % 4 if i % 8 < 4 else 0])
@@ -1210,7 +1313,7 @@ def run(ctx):
         # the small systematic enumerations first (part of the quick budget by construction), the random bulk after; cases are
         # generated phase by phase, so that a tree that fails early does not pay for the generation of the rest
         yield boundary_cases(rng, seps=((1,), (1, 2, 3)) if ctx.budget(0, 1) else ((1, 1, 1, 2),)) + threshold_cases(rng)
-        yield systematic_keyword_cases(rng) + witness_cases()
+        yield systematic_keyword_cases(rng) + systematic_dsr_cases(rng) + witness_cases()
         yield [keyword_case(i) for i in range(min(nk, 40))] + [make_file_case(rng, fcls[i % len(fcls)]) for i in range(4 * len(fcls))]
         for cls in LINE_CLASSES:
             yield [random_line(rng, cls) for _ in range(n)]
